@@ -2,7 +2,7 @@
 # Module describing the declarative circuit structure.
 # -------------------------------------------
 from abc import abstractmethod, ABCMeta
-from dataclasses import dataclass, field
+from dataclasses import dataclass, field, replace
 import warnings
 from typing import List, Iterator, Optional, Dict, Tuple
 import numpy as np
@@ -327,8 +327,9 @@ class CircuitCompositeOperation(ICircuitCompositeOperation):
         result: List[ICircuitOperation] = []
         for node in self._circuit_graph.get_node_iterator():
             # Apply relation-link head (Important for nested composite-operations)
-            if not node.operation.has_relation and node.operation.relation_link is not self.relation_link:
-                node.operation.relation_link = self.relation_link
+            if not node.operation.has_relation:
+                # Hand down an identical but distinct link instance, (nested) operations sharing a link instance compare equal by value
+                node.operation.relation_link = replace(self.relation_link)
                 invalidate_start_time_cache()
             # Extend decomposed operation list
             result.extend(node.operation.decomposed_operations())
